@@ -148,7 +148,7 @@ pub const NUMERIC_ODD: [&[u8]; 15] = [
 pub fn gen_keys(rng: &mut Rng, n: usize) -> Vec<Vec<u8>> {
     let mut keys: Vec<Vec<u8>> = Vec::new();
     while keys.len() < n {
-        let style = rng.below(10);
+        let style = rng.below(12);
         let k: Vec<u8> = match style {
             0..=3 => {
                 // short printable
@@ -184,6 +184,33 @@ pub fn gen_keys(rng: &mut Rng, n: usize) -> Vec<Vec<u8>> {
                 } else {
                     vec![b'p', base[0]]
                 }
+            }
+            10 | 11 if !keys.is_empty() => {
+                // near twin of an existing key: keys are compared byte for byte, in full
+                let mut k = keys[rng.usize(keys.len())].clone();
+                match rng.below(5) {
+                    0 => {
+                        let l = k.len() - 1;
+                        k[l] ^= 1;
+                    }
+                    1 => k[0] ^= 0x80,
+                    2 => {
+                        for b in k.iter_mut() {
+                            if b.is_ascii_alphabetic() {
+                                *b ^= 0x20;
+                            }
+                        }
+                    }
+                    3 => {
+                        k.push(*rng.pick(&[0u8, b' ', b'\n', b'\r', b'\t']));
+                        k.truncate(250);
+                    }
+                    _ => {
+                        let m = k.len() / 2;
+                        k[m] = k[m].wrapping_add(1);
+                    }
+                }
+                k
             }
             _ => {
                 let len = rng.range(1, 250) as usize;
